@@ -25,7 +25,8 @@ P = {
          "unresolved and are evaluated at read time), ${} parsing happens only under VarExp, expression objects are never written after construction, "
          "resolveEnv reports success only after a resolver succeeded (an unresolvable reference is an error, never an empty value), and the lookup "
          "order tree root -> Env last-to-first -> resolvers last-to-first is the one coded, a configuration that does not hold the name handing over "
-         "to the next one (the lookup ends only with the value found or with the environments used up). Operator semantics, escapes and typed results are value-level "
+         "to the next one (the lookup ends only with the value found or with the environments used up), and a resolver that fails handing over to "
+         "the next resolver whatever its error. Operator semantics, escapes and typed results are value-level "
          "and not decided.",
          TRUST,
          "§3 C02"),
@@ -50,7 +51,9 @@ P = {
          "reader of the validator tag and its result is what the family receives; the value handed to the validators is the value returned (up to "
          "pointer/interface wrappers; a default initialised after the validation is reported); every index of a list result is merged or validated. "
          "One reasoned exception (pointer-to-map branch of reifyValue). Every accepting path of a built-in tag validator that reads the value as a "
-         "float takes the true edge of a float comparison, so NaN is never accepted by default. "
+         "float takes the true edge of a float comparison, so NaN is never accepted by default; every one of them decides on the kind of the "
+         "value behind pointers and none recognises strings by an assertion to string; in reifyStruct every field that is not skipped reaches an "
+         "unpack/validate routine before the next iteration. "
          "That each built-in validator computes the right predicate otherwise is not decided.",
          TRUST + "Custom validators and Validate() methods are user code: decided is that they are called.",
          "§3 C04"),
@@ -80,7 +83,8 @@ P = {
          "names and the reader's converter accepts the value classes the writer produces; the cross-sign integer conversions have succeeding paths and "
          "their range guards admit the whole range of the destination (the extreme representable values pass); a Go value is read by its kind "
          "(reflect Int/Uint/Float/Bool/String into a value constructor) only in normalizeValue, where the specially encoded types come first; "
-         "the struct writer and the struct readers enumerate fields with the same reflect interface (no promoted fields on one side only).",
+         "the struct writer and the struct readers enumerate fields with the same reflect interface (no promoted fields on one side only); an object is "
+         "demanded for a struct-kinded target only after the struct types that are written as text (regexp) were excluded, for fresh and pre-filled targets alike.",
          TRUST + "Value equality after the round trip (number formatting and precision, pointer depth, nil vs empty, Duration text) is value-level and "
          "not decided; the class tables of handler functions and the inverse-pair table are frozen in the checker (unknown handlers are undecided).",
          "§3 C06"),
@@ -98,7 +102,9 @@ P = {
          "facts from the dispatches dominating each call site, related to the argument through the chase helpers; six reasoned hand-over "
          "assumptions printed on every run); every evaluator of a dynamic value returns a value or an error, never neither; the index given to a "
          "setter is capped by MaxIdx; a string is converted through reflect only to a type of kind String; what reifyMergeValue returns is stored "
-         "into its slot with the slot's pointers restored; an exported function puts a *Config argument into the tree only under a nil test. Totality over all inputs is a runtime claim; decided is the guarding of each panic point. Third-party "
+         "into its slot with the slot's pointers restored; an exported function puts a *Config argument into the tree only under a nil test, SetChild "
+         "refuses the receiver and its ancestors, the zero value of Config reads as empty and gets its fields when first written, and an Implements-guarded "
+         "assertion of Interface() has a nil guard. Totality over all inputs is a runtime claim; decided is the guarding of each panic point. Third-party "
          "decoders, stack depth, parser-loop termination, kind preconditions of locals outside the dispatch rules and the convertibility "
          "precondition of reflect Convert are not decided.",
          TRUST + "The Go compiler's prove pass is trusted for the bounds checks it eliminates.",
@@ -119,18 +125,20 @@ P = {
          "enumeration order can enter NewFrom/Merge/Unpack (SSA Range over a map, reflect MapKeys/MapRange, a map handed to library code) is "
          "enumerated from the call graph and each is sorted before use, or accumulate-then-sort, or has iterations that are independent of each "
          "other: no value carried between iterations, no early exit, and every effect of the body lands on fresh objects, the per-call options, "
-         "per-key values or the destination through accessors keyed by the loop key (callee effects from the E1 mod summaries).",
+         "per-key values or the destination through accessors keyed by the loop key (callee effects from the E1 mod summaries). The comparators "
+         "of the sorts are strict orders on the keys: key(x[i]) < key(x[j]) on the element itself, or a lexicographic comparison whose last level "
+         "is the key's type (the text of a key alone ties for two keys of an interface keyed map that spell the same name).",
          "Not decided: order-independence of user callbacks (Unpacker, Validator, resolvers); that evaluating a reference while handling one key "
          "does not observe a sibling key written earlier in the same sorted pass (deterministic either way once the order is fixed); the per-call "
          "value cache is accepted under C08 R08e; GetFields / fieldSet.Names / diff.String return names in runtime order and are outside the "
          "property's entry points (listed as information).",
-         "§3 C09"),
+         "§3 C09, §8.4 (key ties)"),
  "C10": (True,
          "interprocedural ownership / mod-and-flow analysis on SSA (E1, custom; summaries to fixpoint over the VTA call graph)",
          "Decides the aliasing statement behind 'source and destination stay independent': for Merge/NewFrom/MustNewFrom the source parameter is "
          "in no mod set and flows into neither destination, options, result nor globals; every value stored into a node by the merge strategies, "
          "fields.append and the cpy implementations is allocation-fresh with no transitive reference into the function's source; every cpy returns "
-         "a deep copy that copies the named and the indexed part of a node on one path; the copy of a primitive node is its own constructor applied to the new context, the receiver's metadata and the receiver's payload; normalize* return values independent of the Go value they were built from. 'No shared mutable object exists after the merge' "
+         "a deep copy that copies the named and the indexed part of a node on one path; the copy of a primitive node is its own constructor applied to the new context, the receiver's metadata and the receiver's payload; normalize* return values independent of the Go value they were built from; mergeValues merges in place only into a stored sub-config of the destination — what a reference in the destination evaluates to (another key, or a section of a configuration given with Env) is copied before it is merged into (R10f, guards repair 62280d6). 'No shared mutable object exists after the merge' "
          "holds for all sources, policies and later histories at once. Not decided: what user code does with captured *Config values.",
          TRUST + "E1 blobs all objects reachable from a parameter (shallow/deep); parameters assumed not to alias at entry; immutable shared types (expressions, paths, metadata) are cut and their immutability is checked separately (R11c).",
          "§3 C10, §2 E1"),
@@ -152,7 +160,8 @@ P = {
          "or by the merge functions (closed set of writers, each paired under C15). Also: Remove walks with environments cleared; a child handle is "
          "the stored config itself, an index segment addresses only the list part of a node and a named segment only the dictionary part (getter, "
          "setter and remover of a segment agree on where it lives; the path walkers use only those segment methods; each typed getter returns its own "
-         "accessor's result and each typed setter stores its own node kind with the argument as payload), and SetChild stores the caller's own config, wrapped and never copied; the path writer touches the live tree only with its last fallible step (missing levels are built detached), so a "
+         "accessor's result and each typed setter stores its own node kind with the argument as payload; CountField and the address functions getField / "
+         "setField find their setting through the parsed path, never by a literal lookup), and SetChild stores the caller's own config, wrapped and never copied; the path writer touches the live tree only with its last fallible step (missing levels are built detached), so a "
          "rejected write leaves the tree as it was; node mutators move stored values and never replace one by a copy. The equivalence with a plain tree over all operation histories is value-level and not decided.",
          TRUST,
          "§3 C12"),
@@ -163,7 +172,8 @@ P = {
          "`return nil`; no other function ever receives an alias, so InitDefaults, field unpacking, Unpacker calls and validation run on the copy and "
          "every failing exit precedes the commit. reifySliceMerge only reads the old slice and returns a fresh one; accessField guards the field access "
          "by the exported/!ignore tests and callers use it only under !skip; Unpack's list-policy dispatch partitions the policies exactly like Merge's; "
-         "merge-or-replace is never decided on the stored representation of an unevaluated setting (a reference to a section is no cfgSub). "
+         "merge-or-replace is never decided on the stored representation of an unevaluated setting (a reference to a section is no cfgSub); a field "
+         "without a policy tag keeps the policy in force (accessField replaces it only when the tag names one). "
          "Which fields are overwritten is value-level and not decided; maps and pointees are excluded by the property.",
          TRUST,
          "§3 C13"),
@@ -185,7 +195,8 @@ P = {
          "(recovered from the producing cpy call, a following SetContext, the normalize call or the literal) pairs with the storage key and with the "
          "owner of the receiving fields; in-place element moves are followed by renumbering of every moved element; every SetContext implementation "
          "stores its argument reachably on every path; Parent() and path() read the same two fields; the text of an index field is the decimal "
-         "rendering of its own integer; every key FlattenedKeys emits has a context path in its derivation; an existing node is re-contexted only next to the store that attaches it or to renumber it. Since the invariant can only be broken at a "
+         "rendering of its own integer; every key FlattenedKeys emits has a context path in its derivation, the family walks both parts of a node and "
+         "classifies values by toConfig; context.path takes the node without parent for the root, never an empty name; an existing node is re-contexted only next to the store that attaches it or to renumber it. Since the invariant can only be broken at a "
          "store or a move, it holds after any operation history. FlattenedKeys' set equality and the diff partition are not decided.",
          TRUST,
          "§3 C15"),
@@ -216,7 +227,8 @@ P = {
          "NewFrom with the caller's options unchanged; file loaders prepend MetaData(Meta{Source:name}) and delegate), that the file name "
          "reaches options.meta, that every value and Config built by normalize* carries opts.meta, that the intermediate nodes created for a dotted "
          "key take the metadata of the value being stored, that cfgInt, cfgUint and cfgFloat support the same conversions (the front-ends differ in which "
-         "of them a whole number becomes), that every error constructor forwards real metadata to messageMeta, and that no normalize "
+         "of them a whole number becomes), that the empty config a null reads as keeps the null's metadata and a setter attaches its metadata before "
+         "the store, that every error constructor forwards real metadata to messageMeta, and that no normalize "
          "function has a store path of its own for one decoder's representation (every named setting goes through normalizeSetField). Holds for all documents at once; equality of the data produced by the three third-party decoders is not decided.",
          TRUST + "Third-party decoders are outside the tree.",
          "§3 C18"),
@@ -227,7 +239,8 @@ P = {
          "the collector on every path, and that the key=value loader treats empty values and bare keys as stated (an argument is ignored only when "
          "its raw value part is empty — never after the value was parsed, so null/[]/{} still override), and that the config a loader returns is "
          "made by NewFrom / New+Merge or the user's file loader, so that the flag's options apply to the value, and that Collector.Add merges "
-         "only a non-nil config (an ignored argument yields none). These are necessary structural "
+         "only a non-nil config (an ignored argument yields none) and that an error a loader reports to the flag package is the one it hands to the "
+         "collector. These are necessary structural "
          "clauses of C19 that hold for all argument sequences at once; equality with a sequence of merges (a value-level fact) is not decided.",
          TRUST + "Does not cover user-supplied FileLoader functions.",
          "§3 C19"),
@@ -236,7 +249,8 @@ P = {
          "Decides the index/name classifier for ALL integers and flags: the guard in front of every index-field return of parseField is read from "
          "SSA and evaluated on every ordering region of (idx, maxIdx) x numKeys x parse error; it must equal !numKeys && parsed && 0<=idx<=maxIdx. "
          "Also: names returned unmodified, numeric keys cleared only for multi-segment paths, ParseInt(in,0,64), parseField is the only text->index "
-         "classifier; an index segment is never answered from the dictionary part of a node. Because the code touches the number only through comparisons the finite table is exhaustive; list growth is under C07.",
+         "classifier; an index segment is never answered from the dictionary part of a node; parsePathIdx hands the caller's options to the path parser "
+         "unchanged. Because the code touches the number only through comparisons the finite table is exhaustive; list growth is under C07.",
          TRUST + "strconv.ParseInt is trusted to implement Go integer syntax.",
          "§3 C20"),
 }
